@@ -6,6 +6,7 @@ package main
 // Oracle: the node ends with exactly the ledger of parents-first delivery.
 
 import (
+	"time"
 	"fmt"
 	"sort"
 
@@ -189,9 +190,67 @@ func longWait(c *Ctx, k, rounds int) {
 	c.Count("scenario.long-wait")
 }
 
+
+// oldHistory: the same as orphanScenario for a history that was CREATED some time ago (a node catching up
+// on older vertices): a chain sealed by a wallet acting as node, every vertex back-dated by `age` and
+// re-signed, delivered in the order `perm` with retries in between. The age of a vertex must not matter.
+func oldHistory(c *Ctx, k int, age time.Duration, perm []int) {
+	w := NewWorld(c)
+	defer w.Close()
+	w.quiet = true
+	a := w.NewNode()
+	b := w.NewNode()
+	w.NewWallet()
+	w.NewWallet()
+	sealer := w.NewWallet()
+	w.quiet = false
+	w.Genesis(a, w.wallets[0].Address(), spice.Melange{Currency: 1000})
+	w.syncFrom(a, b)
+	gen := a.ab.VerifSnapshot().Vertices[0]
+	var hist []accountant.Vertex
+	prev, weight := gen.Hash, gen.Weight
+	for i := 0; i < k; i++ {
+		t := w.NewTrx(w.wallets[0], w.wallets[1].Address(), spice.Melange{Currency: 1, SupplementaryCurrency: uint64(i)}, nil)
+		weight++
+		v, err := accountant.NewVertex(t, prev, prev, weight, sealer)
+		if err != nil {
+			panic(err)
+		}
+		v.CreatedAt = time.Now().Add(-age)
+		v.Hash, v.Signature = sealer.Sign(accountant.VerifVertexData(&v))
+		hist = append(hist, v)
+		prev = v.Hash
+	}
+	info := map[string]interface{}{"section": "orphans", "scenario": "old-history", "k": k, "age_seconds": age.Seconds(), "perm": perm}
+	c.Mark(info)
+	for i := range hist {
+		w.Add(a, &hist[i]) // reference: parents first
+	}
+	want := a.ab.VerifSnapshot()
+	for _, i := range perm {
+		w.Add(b, &hist[i])
+		w.Retry(b)
+	}
+	for i := 0; i < 40*k+40; i++ {
+		if had, _ := w.Retry(b); !had {
+			break
+		}
+	}
+	got := b.ab.VerifSnapshot()
+	c.Distinct(fmt.Sprint("old-history/", age, perm))
+	c.Count("scenario.old-history")
+	if len(want.Vertices) != k+1 {
+		c.Violate("C13", "old-history-refused-parents-first", fmt.Sprintf("a chain of %d vertices created %v ago delivered parents first: the node holds %d vertices", k, age, len(want.Vertices)), info)
+	}
+	if len(got.Parked) != 0 || ledgerKey(&got) != ledgerKey(&want) {
+		c.Violate("C13", "old-history-order-changes-final-ledger", fmt.Sprintf("a chain of %d vertices created %v ago delivered in order %v: receiver has %d vertices (%d parked), parents-first delivery gives %d",
+			k, age, perm, len(got.Vertices), len(got.Parked), len(want.Vertices)), info)
+	}
+}
+
 func init() {
 	sections["orphans"] = func(c *Ctx) error {
-		c.Rep.Rule = "valid histories (chain or two-origin braid) of k vertices delivered to a synced node in all k! orders (k<=4 quick, k<=5 thorough; exhaustive) and random orders (k=12..20), with duplicates / corrupted copies / interleaved retries; retries until the buffer is empty; final ledger compared with parents-first delivery; non-trivial = distinct (shape, permutation)"
+		c.Rep.Rule = "valid histories (chain or two-origin braid) of k vertices delivered to a synced node in all k! orders (k<=4 quick, k<=5 thorough; exhaustive) and random orders (k=12..20), with duplicates / corrupted copies / interleaved retries; back-dated histories (created 90 s .. 3 days ago) delivered out of order; retries until the buffer is empty; final ledger compared with parents-first delivery; non-trivial = distinct (shape, permutation)"
 		kmax := 4
 		nrand := 6
 		if c.Tier == "thorough" {
@@ -221,6 +280,11 @@ func init() {
 		longWait(c, 60, 9)
 		if c.Tier == "thorough" {
 			longWait(c, 120, 12)
+		}
+		// histories created a while ago (minutes to days): the age of a vertex plays no role in its admission
+		for _, age := range []time.Duration{90 * time.Second, 3 * time.Minute, 2 * time.Hour, 72 * time.Hour} {
+			oldHistory(c, 4, age, []int{3, 2, 1, 0})
+			oldHistory(c, 4, age, []int{1, 3, 0, 2})
 		}
 		c.Rep.Extra["exhaustive_up_to_k"] = kmax
 		c.Rep.Extra["exhaustive"] = exhaustive
